@@ -33,12 +33,17 @@ template<class X> inline void note_pos_rt(int, const X&) {}
 template<class A> constexpr void note_pos(int R, const A& a) { if (!__builtin_is_constant_evaluated()) note_pos_rt(R, a); }
 template<int R> struct F { template<class... A> constexpr uint64_t operator()(A&&... a) const { uint64_t h = hcomb(0xabcd, uint64_t(R)); ((h = hcomb(h, val(a)), note_pos(R, a)), ...); return h; } };
 // spelled terminals: the grammar's namespace supplies M::term_of(lexeme)
+// run-time-only programs: a term value type that owns memory (not trivially copyable), as typed terms returning std::string / std::vector have
+struct Owned { uint64_t h = 0; std::string keep; operator uint64_t() const { return h; } };
+struct TO { int t; Owned operator()(std::string_view sv) const { return Owned{term_hash(t, sv), std::string(sv) + " (owned copy, long enough to live on the heap)"}; } };
+inline uint64_t val(const term_value<Owned>& t) { return t.get_value().keep.size() > 40 ? t.get_value().h : 0xdeadULL; }
 constexpr uint64_t val2(uint64_t v) { return v; }
 constexpr uint64_t val2(no_type) { return 0xe44044ULL; }
 template<class M> struct V2 {
   static constexpr uint64_t of(uint64_t v) { return v; }
   static constexpr uint64_t of(no_type) { return 0xe44044ULL; }
   static constexpr uint64_t of(const term_value<uint64_t>& t) { return t.get_value(); }
+  static uint64_t of(const term_value<Owned>& t) { return t.get_value().keep.size() > 40 ? t.get_value().h : 0xdeadULL; }
   static constexpr uint64_t of(const term_value<char>& t) { char c = t.get_value(); return term_hash(M::term_of(std::string_view(&c, 1)), std::string_view(&c, 1)); }
   static constexpr uint64_t of(const term_value<std::string_view>& t) { return term_hash(M::term_of(t.get_value()), t.get_value()); }
 };
@@ -118,6 +123,8 @@ def render_grammar(gi, case, with_cases=True, lite=False, ctxmix=False, customle
         import zlib as _z
         stateful = _z.crc32(json.dumps(g["rules"], sort_keys=True).encode()) % 2 == 1      # typed / custom terms share one functor type in half of the programs
         tfun = (lambda t: "hh::TS{%d}" % t) if stateful else (lambda t: "hh::TF<%d>{}" % t)
+        if lite and _z.crc32(json.dumps(g["rules"], sort_keys=True).encode()) % 3 == 2:
+            tfun = lambda t: "hh::TO{%d}" % t          # typed / custom terms whose value owns memory
         for t, (ti, sp) in enumerate(zip(g["terms"], spelling)):
             assoc = "associativity::" + ["no_assoc", "ltor", "rtol"][ti["assoc"]]
             plain = ti["prec"] == 0 and ti["assoc"] == 0
